@@ -159,3 +159,31 @@ package node
 //@   loop 2 invariant @unexecuted_rest forall k int :: iter <= k && k < len(txBatches) ==> !Lrel[*txBatches[k].Entry.Hash]
 //@   loop 2 invariant @distinct forall j int, k int :: 0 <= j && j < k && k < len(txBatches) ==> *txBatches[j].Entry.Hash != *txBatches[k].Entry.Hash
 //@   loop 2 invariant @batches forall k int :: 0 <= k && k < len(txBatches) ==> txBatches[k] != nil && txBatches[k].Entry.Hash != nil && tickersInRange(txBatches[k].Transactions) && Lhold[*txBatches[k].Entry.Hash] == i
+//@
+//@ // ---- grading glue (C08 C11) -------------------------------------------------------------------------
+//@ spec func sprVersionAt(h int) int = h >= wrap_int32(config.V202EnhanceActivation) ? 7 : (h >= wrap_int32(config.SprSignatureActivation) ? 6 : 5)
+//@ spec func oprVersionAt(h int) int = h >= wrap_int32(config.V20HeightActivation) ? 5 : (h >= wrap_int32(config.V4OPRUpdate) ? 4 : (h >= wrap_int32(config.PEGFreeFloatingPriceActivation) ? 3 : (h >= wrap_int32(config.GradingV2Activation) ? 2 : 1)))
+//@ spec func activationsOrdered() bool = config.GradingV2Activation <= config.PEGFreeFloatingPriceActivation && config.PEGFreeFloatingPriceActivation <= config.V4OPRUpdate && config.V4OPRUpdate <= config.V20HeightActivation && config.V20HeightActivation <= config.SprSignatureActivation && config.SprSignatureActivation <= config.V202EnhanceActivation && config.V202EnhanceActivation <= 2147483647
+//@
+//@ func (*Pegnetd).GradeS
+//@   props C08 C11
+//@   nullable block
+//@   requires @wellformed d.Pegnet != nil && (block != nil ==> block.ChainID != nil && block.Height <= 2147483647 && (forall k int :: 0 <= k && k < len(block.Entries) ==> block.Entries[k].Hash != nil))
+//@   requires @activations activationsOrdered()
+//@   ensures @no_block block == nil ==> result0 == nil && result1 == nil
+//@   ensures @wrong_chain block != nil && *block.ChainID != config.SPRChain ==> result1 != nil
+//@   modifies nothing
+//@   loop 1 preserves old
+//@   loop 2 preserves old
+//@
+//@ func (*Pegnetd).Grade
+//@   props C08 C11
+//@   nullable block
+//@   requires @wellformed d.Pegnet != nil && (block != nil ==> block.ChainID != nil && block.Height <= 2147483647 && (forall k int :: 0 <= k && k < len(block.Entries) ==> block.Entries[k].Hash != nil))
+//@   requires @activations activationsOrdered()
+//@   ensures @no_block block == nil ==> result0 == nil && result1 == nil
+//@   ensures @wrong_chain block != nil && *block.ChainID != config.OPRChain ==> result1 != nil
+//@   ensures @healthy envHealthy && block != nil && *block.ChainID == config.OPRChain ==> true
+//@   modifies nothing
+//@   loop 1 preserves old
+//@   loop 2 preserves old
